@@ -182,6 +182,14 @@ def judge(spec, mode, obs, label):
         if outcome.startswith("error:") and outcome.split(":")[1] in ("IndexError", "KeyError", "ValueError", "TypeError", "ZeroDivisionError", "AttributeError"):
             obs.violate("pipeflow_crashes_on_outage_pattern", "a supplied part exists (%d junctions) but pipeflow raised %s: %s"
                         % (len(reached), outcome.split(":")[1], str(exc)[:120]), **desc)
+        if outcome == "not_converged":
+            # the supplied part must be unaffected by the rest: if it can be calculated on its own, it must be calculated here
+            pnet = netgen.build(reach.prune(spec, reached))
+            pout, _ = run_pipeflow(pnet, opts)
+            obs.count("failed_pattern_vs_pruned_checks")
+            if pout == "ok":
+                obs.violate("supplied_part_not_calculated", "pipeflow does not converge although the supplied part alone (%d junctions) does"
+                            % len(reached), **desc)
         return False
     mixed = len(reached) < len(spec["junctions"]) or any(e.get("in_service") is False or e.get("opened") is False for e in spec["elements"])
     if mixed:
